@@ -49,9 +49,9 @@ func (b *exampleBuilder) Build(node internalSchema.Node) ([]byte, error) {
 }
 
 func (b *exampleBuilder) buildExampleForObjectNode(node *internalSchema.ObjectNode) ([]byte, error) {
-	if node.Constraint(constraint.TypesListConstraintType) != nil {
-		return nil, errors.ErrUserTypeFound
-	}
+	// An object carrying an "or" rule is always empty and never refers to user
+	// types (both are checked when the schema is compiled): its own example, {},
+	// is the example.
 
 	buf := exampleBufferPool.Get()
 	defer exampleBufferPool.Put(buf)
@@ -120,9 +120,7 @@ func (b *exampleBuilder) buildObjectKey(k internalSchema.ObjectNodeKey) ([]byte,
 }
 
 func (b *exampleBuilder) buildExampleForArrayNode(node *internalSchema.ArrayNode) ([]byte, error) {
-	if node.Constraint(constraint.TypesListConstraintType) != nil {
-		return nil, errors.ErrUserTypeFound
-	}
+	// See buildExampleForObjectNode: an array with an "or" rule is empty.
 
 	buf := exampleBufferPool.Get()
 	defer exampleBufferPool.Put(buf)
